@@ -740,7 +740,42 @@ func (node *Node) handleMessage(ctx context.Context, msg wire.Message) error {
 		}
 	}
 
+	if inv, ok := msg.(*wire.MsgInv); ok {
+		node.checkBlockInventory(ctx, inv)
+	}
+
 	return nil
+}
+
+// checkBlockInventory requests headers when the trusted node announces an unknown block by
+// inventory. New blocks are announced with headers once the trusted node has processed our
+// sendheaders message, but a block found before that is only announced by inventory, and later
+// headers announcements don't connect without it. Since headers are not polled while in sync the
+// block would never be seen. While syncing, the in sync state is entered when the last known block
+// is processed, without polling headers again, so the same applies then.
+func (node *Node) checkBlockInventory(ctx context.Context, inv *wire.MsgInv) {
+	for _, item := range inv.InvList {
+		if item.Type != wire.InvTypeBlock {
+			continue
+		}
+
+		if node.blocks.Contains(&item.Hash) || node.state.BlockIsRequested(&item.Hash) ||
+			node.state.BlockIsToBeRequested(&item.Hash) {
+			continue
+		}
+
+		headerRequest, err := buildHeaderRequest(ctx, node.state.ProtocolVersion(), node.blocks,
+			node.state, 1, 50)
+		if err != nil {
+			logger.Warn(ctx, "Failed to build header request : %s", err)
+			return
+		}
+
+		if node.queueOutgoing(headerRequest) {
+			logger.Verbose(ctx, "Requesting headers for block inventory : %s", item.Hash)
+		}
+		return
+	}
 }
 
 // CleanupBlock is called when a block is being processed.
